@@ -17,7 +17,7 @@ EXTENDS PipelineOps, NetSimplexOps, Json, IOUtils
 Trace == ndJsonDeserialize(IOEnv.VERIF_TRACE)
 
 CONSTANTS NSMaxNodes, NSMaxEdges,     \* size bounds for the layer-3 predictions (cost of evaluating the models in TLC)
-          CBMaxNodes, CBMaxEdges, POMaxNodes
+          CBMaxNodes, CBMaxEdges, POMaxNodes, WMMaxNodes, WMMaxEdges
 VARIABLES l, call, prev, cnt,
           xacc,     \* crossings of the orders recorded so far for the components of the current call
           out       \* the layout the collect loop of autolayout.go must return for the components recorded so far:
@@ -101,6 +101,20 @@ BLDrift(c, a, s) ==
             \cup If(B.edges = [k \in DOMAIN s.edges |-> <<s.edges[k][1], s.edges[k][2], s.edges[k][3]>>], "L3_FragmentsAsModelled")
             \cup If(B.inl = s.inl /\ B.outl = s.outl, "L3_EdgeListsAfterBreakingAsModelled")
 
+\* ---- layer 3 bound to the code: the weighted-median ordering predicts every in-layer position exactly
+WM == INSTANCE WMedianOps
+WMGraph(s) ==
+    [k |-> Len(s.nodes), nl |-> Len(s.layers),
+     layer |-> [i \in DOMAIN s.nodes |-> s.nodes[i][3]],
+     ef |-> [i \in DOMAIN s.edges |-> IndexOf(s, s.edges[i][1])], et |-> [i \in DOMAIN s.edges |-> IndexOf(s, s.edges[i][2])],
+     inl |-> s.inl, outl |-> s.outl]
+WMApplies(c, a, s) == /\ c.p3 # "noop" /\ BLApplies(c, a, s) /\ Len(s.nodes) <= WMMaxNodes /\ Len(s.edges) <= WMMaxEdges
+                      /\ \A i \in DOMAIN s.edges : LayerOfRef(s, s.edges[i][2]) - LayerOfRef(s, s.edges[i][1]) = 1
+WMDrift(c, a, s) ==
+    IF ~WMApplies(c, a, s) THEN {}
+    ELSE LET R == WM!WMedian(WMGraph(s), [i \in DOMAIN s.nodes |-> 0], 24)
+         IN If([i \in DOMAIN s.nodes |-> s.nodes[i][4]] = R.pos, "L3_OrderAsModelled")
+
 \* ---- layer 3 bound to the code: the positioning models predict every coordinate exactly (x in half units)
 PO == INSTANCE PositionOps
 PosGraph(a) ==
@@ -153,7 +167,7 @@ Broken(c, a, s) ==
     CASE s.st = 0 -> (IF a.st \in {-1, 6} THEN {} ELSE {"StageOrder"}) \cup Contract0(c, s.comp, s)
       [] s.st = 1 -> (IF a.st = 0 THEN Contract1(c, a, s) \cup CBDrift(c, a, s) ELSE {"StageOrder"})
       [] s.st = 2 -> (IF a.st = 1 THEN Contract2(c, a, s) \cup NSDrift(c, a, s) ELSE {"StageOrder"})
-      [] s.st = 3 -> (IF a.st = 2 THEN Contract3(c, a, s) \cup BLDrift(c, a, s) ELSE {"StageOrder"})
+      [] s.st = 3 -> (IF a.st = 2 THEN Contract3(c, a, s) \cup BLDrift(c, a, s) \cup WMDrift(c, a, s) ELSE {"StageOrder"})
       [] s.st = 4 -> (IF a.st = 3 THEN Contract4(c, a, s) \cup PODrift(c, a, s) ELSE {"StageOrder"})
       [] s.st = 5 -> (IF a.st = 4 THEN Contract5(c, a, s) \cup RODrift(c, a, s) ELSE {"StageOrder"})
       [] s.st = 6 -> (IF a.st = 5 THEN Contract6(c, s.comp, a, s) ELSE {"StageOrder"})
@@ -194,6 +208,7 @@ TraceStage ==
                                                     + (IF s.st = 1 /\ prev.st = 0 /\ CBApplies(call, prev, s) THEN 1 ELSE 0)
                                                     + (IF s.st = 4 /\ prev.st = 3 /\ POApplies(call, prev, s) THEN 1 ELSE 0)
                                                     + (IF s.st = 3 /\ prev.st = 2 /\ BLApplies(call, prev, s) THEN 1 ELSE 0)
+                                                    + (IF s.st = 3 /\ prev.st = 2 /\ WMApplies(call, prev, s) THEN 1 ELSE 0)
                                                     + (IF s.st = 5 /\ prev.st = 4 /\ ROApplies(call, prev, s) THEN 1 ELSE 0)]
     /\ UNCHANGED call /\ Final
 TraceEnd == /\ (IsEvent("Return") \/ IsEvent("Panic") \/ IsEvent("Abort"))
